@@ -18,6 +18,10 @@ def judge(w, fold=False):
     have = w.all_contents()
     must = (set(w.written) | set(getattr(w, "base_contents", ())) | set(getattr(w, "unsynced_base_contents", ()))) - w.destroyed
     out["lost"] = sorted(c.decode("latin1") for c in must if c not in have)
+    try:        # quiet (no step changes anything) but the engine still reports pending work = looping in place
+        out["busy"] = sorted(str(e[0]._path or e[1]._path) for e in w.cs.state._changeset) if w.cs.busy else []
+    except Exception:
+        out["busy"] = []
     return out
 
 
